@@ -430,6 +430,19 @@ def iter_scenarios(shapes, L):
                 src = ITERMUT_SOURCES[k % len(ITERMUT_SOURCES)]
                 st = "".join(c + "L" for c in steps)
                 out.append(Scenario(sh, [setup(n), f"itermut r0 {src} {st}", "len r0"], "itermut"))
+            # adaptor-style consumption (nth / nth_back in range and overshooting, last, count) mixed with plain steps,
+            # the iterator used again afterwards; len and size_hint after every step
+            adapt = []
+            for pre in itertools.product("FBNR", repeat=min(n, 2)):
+                for mid in "NZRTC":
+                    adapt.append("".join(pre) + mid + "FB")
+            alines = [setup(n)]
+            for j, steps in enumerate(adapt):
+                st = "LH" + "".join(c + "LH" for c in steps)
+                alines.append(f"iter r0 {ITER_SOURCES[j % len(ITER_SOURCES)]} {st}")
+                msrc = ITERMUT_SOURCES[j % len(ITERMUT_SOURCES)]
+                out.append(Scenario(sh, [setup(n), f"itermut r0 {msrc} {''.join(c + 'L' for c in steps)}", "len r0"], "itermut-adapt"))
+            out.append(Scenario(sh, alines, "iter-adapt"))
     return out
 
 
